@@ -32,6 +32,8 @@ class BaseMonitor:
     def on_read(self, ex, st, fr, e, b, i): pass
     def on_compare(self, ex, st, e, op, l, r): pass
     def on_cycle(self, ex, st, loop, fr): pass
+    def arith(self, ex, op, a, b, st, e): return NotImplemented
+    def on_cast(self, ex, st, e, v): pass
     def avail_minus(self, ex, st, ptr): return Unknown('end-ptr')
     def cmp_end(self, ex, st, a, op):
         s2 = st.copy(); yield True, st; yield False, s2
